@@ -21,7 +21,7 @@ class Attach:
 
 
 def run_incrate(prop, tier, seed, only, attaches, harnesses, functions_encoded, assumptions, stubs, rule,
-                scalings=(), jobs=8, extra=None):
+                scalings=(), jobs=8, extra=None, package_args=None):
     t0 = time.time()
     sc = Scratch(prop.lower())
     for s in scalings:
@@ -44,10 +44,10 @@ def run_incrate(prop, tier, seed, only, attaches, harnesses, functions_encoded, 
     hs = [h for h in harnesses if (not only or re.search(only, h.name))]
     if not hs:
         raise Inconclusive("no harness selected")
-    runner = KaniRunner(sc, sc.repo, jobs=jobs)
+    runner = KaniRunner(sc, sc.repo, jobs=jobs, package_args=package_args)
     results = runner.run_all(hs)
     out = Outcome()
-    handle_results(prop, results, runner, sc, sc.repo, lambda h: file_of_mod[h.group_file], out)
+    handle_results(prop, results, runner, sc, sc.repo, lambda h: file_of_mod[h.group_file], out, package_args=package_args)
     if extra:
         extra(sc, out)
     rc = finish(prop, tier, seed, out, t0, functions_encoded, assumptions, stubs, sc.scalings, rule)
@@ -55,7 +55,7 @@ def run_incrate(prop, tier, seed, only, attaches, harnesses, functions_encoded, 
     return rc
 
 
-def replay_incrate(prop, path, attaches, scalings=()):
+def replay_incrate(prop, path, attaches, scalings=(), package_args=None):
     """Re-runs a recorded counterexample (concrete playback test) natively against /repo's current tree."""
     info = json.load(open(path))
     sc = Scratch(prop.lower() + "_replay")
@@ -75,7 +75,7 @@ def replay_incrate(prop, path, attaches, scalings=()):
         return 2
     rc = 0
     for rel in (False, True):
-        r = playback(sc, sc.repo, target, info["playback_test"], release=rel)
+        r = playback(sc, sc.repo, target, info["playback_test"], release=rel, package_args=package_args)
         log("replay %s profile=%s reproduced=%s panic=%s" % (info["harness"], "release" if rel else "dev",
                                                           r["reproduced"], r["panic"]))
         if r["reproduced"]:
